@@ -384,7 +384,8 @@ func (s *writer) routine() {
 								s.log.Error("Set publication expire", zap.String("ClientID", s.id), zap.Error(err))
 							}
 						}
-						s.setTopicAlias(pack)
+
+						p = s.aliased(pack)
 					}
 				}
 
@@ -442,6 +443,34 @@ func (s *writer) popPackets() []mqttp.IFace {
 		}
 	}
 	return packets
+}
+
+// aliased gives the packet to put on the wire for pkt with the topic alias of this connection applied.
+// A QoS 0 message is gone once it is written: the alias goes onto the packet itself. A QoS 1/2 message
+// stays in the unacknowledged set and may be persisted and transmitted again by another connection,
+// whose alias table is empty: it must keep its topic and carry no alias, so the alias goes onto a copy
+func (s *writer) aliased(pkt *mqttp.Publish) mqttp.IFace {
+	if s.topicAliasMax == 0 {
+		return pkt
+	}
+
+	if pkt.QoS() == mqttp.QoS0 {
+		s.setTopicAlias(pkt)
+		return pkt
+	}
+
+	pkt.SetVersion(s.version)
+
+	if buf, err := mqttp.Encode(pkt); err == nil {
+		if cp, _, e := mqttp.Decode(s.version, buf); e == nil {
+			if wire, ok := cp.(*mqttp.Publish); ok {
+				s.setTopicAlias(wire)
+				return wire
+			}
+		}
+	}
+
+	return pkt
 }
 
 func (s *writer) setTopicAlias(pkt *mqttp.Publish) {
